@@ -157,12 +157,19 @@ def layout_value(layout):
     return vobj([("coordinates", to_value(layout.coords.tolist())), ("slug", to_value(layout.slug))])
 
 
+def _oper_array(op):
+    try:
+        return np.array(op, dtype=complex)
+    except TypeError:  # an operator object (qutip.Qobj) stored as it was given
+        return np.array(op.full(), dtype=complex)
+
+
 def noise_value(nm):
     kvs = []
     for f in dataclasses.fields(nm):
         v = getattr(nm, f.name)
         if f.name == "eff_noise_opers":
-            v = [np.array(op, dtype=complex).tolist() for op in v]
+            v = [_oper_array(op).tolist() for op in v]
         kvs.append((f.name, to_value(v)))
     return vobj(kvs)
 
